@@ -175,6 +175,9 @@ func c06Oracle(sc *Scenario, rec *Rec, s *mc.Sched) []mc.Violation {
 			if strings.HasPrefix(m, "alias:") {
 				out = append(out, mc.Violation{Clause: "shared-memory", Obs: fmt.Sprintf("rpc%d: %s", i, m[len("alias:"):]), Detail: rr})
 			}
+			if strings.HasPrefix(m, "late-write:") {
+				out = append(out, mc.Violation{Clause: "destination-written-after-return", Obs: fmt.Sprintf("rpc%d: %s", i, m[len("late-write:"):]), Detail: rr})
+			}
 			if strings.HasPrefix(m, "merge:") {
 				out = append(out, mc.Violation{Clause: "destination-merged", Obs: fmt.Sprintf("rpc%d: %s", i, m[len("merge:"):]), Detail: rr})
 			}
